@@ -316,28 +316,49 @@ class C08(Prop):
     anchored = ["src/pewlib/io/laser.py"]
     cases = {"quick": 250, "thorough": 6000}
     rule = ("rastered acquisitions rendered by the Lean specification: 1-3 logged patterns, each one of the 8 scan patterns "
-            "(4 directions x uni/serpentine), 1..6 lines of 1..9 pixels, four-decimal stage origins (zero, negative, ~8e4 um), "
-            "spot sizes 0.1/1.1/12.5/40/random four-decimal in square, rectangular and circular notation, laser-off gaps "
-            "(0 ms .. s) with and without off samples, lead-in/late start/early end of the signal (delay of either sign), "
-            "stage-move rows, selection None/int/list (plain or numpy) at any position, squeeze on/off, 1-3 elements, NaN samples; "
-            "the signal handed over as (n,), (1,n), (k,n/k), (n,1), Fortran-ordered or strided array of float64/float32 records or "
-            "plain floats, its clock as stamps (1-d or the data's shape) or - for signals sampled at a constant interval - as the "
-            "acquisition time per sample (float / np.float64); log as str, Path or array; optionally after an earlier call on the "
-            "same objects; "
-            "written as a real NWI CSV, read with read_nwi_laser_log and synchronised with sync_data_nwi_laser_log; "
+            "(4 directions x uni/serpentine), 1..6 lines of 1..9 pixels (2 % far larger: 15-30 lines of 20-50 pixels), four-decimal "
+            "stage origins (zero, negative, ~8e4 um), spot sizes 0.1/1.1/12.5/40/random four-decimal in square, rectangular and "
+            "circular notation, laser-off gaps (0 ms .. 25 h) with and without off samples, lead-in/late start/early end of the "
+            "signal (delay of either sign, also longer than a line), stage-move rows, selection None/int/list/tuple/numpy array "
+            "(int64, int32, 0-d) at any position, squeeze on/off, 1-4 elements; "
+            "the log text is written by the Lean specification (renderLog) with the wall-clock date chosen so that 30 % of the "
+            "runs cross midnight, a month's / year's end, the leap day, noon or a full hour inside a line, between two lines or "
+            "patterns, with rows stamped 00:00:00.000 / 23:59:59.999; LF or CRLF, with / without BOM and final line terminator; "
+            "NaN samples in all elements (stride) and element-wise NaN plans (a whole line, one pixel position of every line, a "
+            "stride NaN in the first / a middle / the last / all but one / all elements), infinities, -0.0, tiny and huge values; "
+            "the signal handed over as (n,), (1,n), (k,n/k), (n,1), Fortran-ordered or strided array of float64 / float32 / mixed / "
+            "big-endian records or plain floats, its clock as stamps (1-d or the data's shape, from 0 or epoch seconds) or - for "
+            "signals sampled at a constant interval - as the acquisition time per sample (float / np.float64); delay as float or "
+            "np.float64; log as str, Path, array or strided view of an array; optionally after an unjudged earlier call on the same "
+            "objects; 25 % of the cases are HISTORIES of two or three judged synchronisations in one process (same objects with "
+            "another selection / another log with the same spot size string / unrelated, all read from one path), the caller "
+            "editing every mutable object each call returned (parameter arrays, the image) in place before the next; "
+            "read with read_nwi_laser_log and synchronised with sync_data_nwi_laser_log; "
             "samples sit strictly inside dwell/gap slots; non-trivial = every case (each renders at least one On/Off pair); "
             "distinct by canonical case hash")
-    trusted = ["np.genfromtxt parses the CSV columns (datetime64[ms], int with -1 for blanks, float, U-strings) as documented; "
+    trusted = ["np.genfromtxt splits the file into lines and the lines into comma-separated fields and converts the selected columns "
+               "(ISO stamp -> datetime64[ms], int with -1 for blanks, float, U-strings cut to their width) as the Lean reader "
+               "model parseLine says (compared on every case through the result of the synchronisation); "
                "np.searchsorted on a sorted array returns the number of entries below the value",
                "float evaluation of (x - origin)/spot for four-decimal coordinates is within 1e-9 of the exact quotient "
                "(theorem pixel_index_robust covers any perturbation below 5e-7); float sample/event times differ from the "
-               "exact rationals by far less than the generated margin (>= 0.1 ms) between a sample and a laser event"]
+               "exact rationals by far less than the generated margin (>= 0.1 ms) between a sample and a laser event",
+               "Python's datetime arithmetic places the chosen boundary instant (the harness's writer must reproduce the Lean "
+               "specification's text line by line, else the run stops with an internal error)"]
     assumptions = ["ground truth is demanded only where the property's text defines it: one sample per pixel; every imported line "
                    "is recorded completely, not at all, or from some pixel to its end (late start of the signal = positive "
                    "delay); signals that stop in the middle of a line are not generated; selected patterns share one spot size and pixel grid "
-                   "and do not overlap; other cases are counted as undetermined",
+                   "and do not overlap; the log lies between 1970 and the year 10000 and no spot size string is longer than the 16 "
+                   "characters the reader keeps (textHyp); other cases are counted as undetermined",
                    "without squeeze the result is compared as the set of non-NaN pixels (row, column, element values) from "
-                   "the reported origin; the NaN margin of the canvas is compared against the model only"]
+                   "the reported origin; the NaN margin of the canvas is compared against the model only",
+                   "a pixel whose sample is NaN in every element cannot be told from an unvisited one: with squeeze its row / column "
+                   "goes when nothing else holds data there (specification squeezeSpec); NaN in some elements only never removes anything",
+                   "argument mutation is not an observation point: before every call the signal, the stamps and a log array are "
+                   "restored to the modelled input; state kept outside the arguments (caches, reused buffers, objects shared with "
+                   "what a call returned) is what a history exposes; the caller's edits are undone at the end of a case",
+                   "selections whose rasters would need an image of more than 250000 pixels (patterns with unrelated spot sizes "
+                   "selected together) are not evaluated"]
 
     # ------------------------------------------------------------------ generation
     def gen_pattern(self, rng, seq, sxu, syu, circular, X, Y, big=False):
